@@ -195,3 +195,48 @@ type Replayer interface {
 type WithExtra interface {
 	Extra(m *runner.Merged) map[string]interface{}
 }
+
+// Composite concatenates the units of several parts into one property.
+type Composite struct {
+	id    string
+	meta  Meta
+	Parts []Prop
+	Names []string
+}
+
+func (c *Composite) ID() string { return c.id }
+func (c *Composite) Meta() Meta { return c.meta }
+func (c *Composite) NumUnits(tier string, seed int64) int {
+	n := 0
+	for _, p := range c.Parts {
+		n += p.NumUnits(tier, seed)
+	}
+	return n
+}
+func (c *Composite) RunUnit(idx int, tier string, seed int64, focus map[string]string, rep *runner.Reporter) {
+	for i, p := range c.Parts {
+		n := p.NumUnits(tier, seed)
+		if idx < n {
+			rep.SetPart(c.Names[i])
+			rep.Distinct("parts", c.Names[i])
+			p.RunUnit(idx, tier, seed, focus, rep)
+			rep.SetPart("")
+			return
+		}
+		idx -= n
+	}
+}
+func (c *Composite) Replay(w *runner.Witness, rep *runner.Reporter) error {
+	for i, p := range c.Parts {
+		if w.Focus != nil && w.Focus["part"] != "" && w.Focus["part"] != c.Names[i] {
+			continue
+		}
+		if rp, ok := p.(Replayer); ok {
+			rep.SetPart(c.Names[i])
+			err := rp.Replay(w, rep)
+			rep.SetPart("")
+			return err
+		}
+	}
+	return fmt.Errorf("no part can replay this witness")
+}
